@@ -98,7 +98,7 @@ def perturbations(v):
 def _argv(w, outdir):
     argv = genargs.build_argv({k: x for k, x in w.items() if not k.startswith('_')}, outdir)
     if w.get('_drop_o'):
-        i = argv.index('-o')
+        i = argv.index('-o') if '-o' in argv else argv.index('--outputdirectory')
         del argv[i:i + 2]
     return argv
 
